@@ -7,6 +7,11 @@ var (
 	// ErrKeyOutOfOrder means keys to create Trie are not ascendingly ordered.
 	ErrKeyOutOfOrder = errors.New("keys not ascending sorted")
 
+	// ErrKeyTooLong means a run of bits shared by several keys is too long to
+	// be stored as a step, i.e., a 16-bit count of 4-bit words, when inner
+	// prefixes are not stored.
+	ErrKeyTooLong = errors.New("common prefix of keys too long for a 16-bit step")
+
 	// ErrIncompatible means it is trying to unmarshal data from an incompatible
 	// version.
 	ErrIncompatible = errors.New("incompatible with marshaled data")
